@@ -15,8 +15,16 @@ from ..core import run_section, hs
 
 MODULE = 'KdVerif.Props.C14'
 NAMESPACE = 'KdVerif.C14'
-TRUSTED = ['Model/Format.lean written statement by statement like _format_kevent / _format_trace / _format_callstack / '
-           '_format_log / _format_process / _format_timestamp (tick branch); tied by the correspondence sections',
+TRUSTED = ['Model/Format.lean (formatKevent / formatTrace / formatCallstack / formatLog / formatProcess / formatTimestamp) is tied to '
+           'the SOURCE TEXT of pykdebugparser.py by translation: tools/gen_pyir_fm.py (pure ast) turns _format_timestamp, '
+           '_format_process, _format_kevent, _format_trace, _format_callstack, _format_log into the Python-subset IR of '
+           'Model/PyIRFm on every run (Gen/PyIRFm); source_is_expected_ir says the generated methods are those of '
+           'Spec/PyIRFmExpected; format_*_ir_eq_model (via Proofs/PyIRFm) say those methods, run by the interpreter PyIRFm.exec, '
+           'ARE the model functions for every switch setting, colour machinery, tables and argument.  Trusted there: the '
+           'translator (its normal form: both spellings of a conditional append are one node, the alias tid = event.tid is '
+           'inlined), the interpreter as semantics of that subset (tested against CPython by the sections *-ir), the format '
+           'primitives of Model/Format as the meaning of the format specifications; outside the tie: the wall-clock branch of '
+           '_format_timestamp (opaque node wallClock), str(trace), str(uuid), strftime, pygments, termcolor',
            "Python format specifications (f'{s:<58}', f'{n:>11}', f'{n:016x}', hex(), str(int), bytes.__repr__) "
            'modelled in Model/Format.lean and diffed against CPython in section format-primitives',
            'DgbFuncQual reflected into Gen/Enums.lean',
@@ -825,6 +833,25 @@ def log_oracle(case, got):
 
 _notes = set()
 
+# ---------------------------------------------------------------- translation tie
+
+MIRROR = {'fmtk': 'irfmtk', 'fmtkf': 'irfmtkf', 'fmtq': 'irfmtq', 'fmtt': 'irfmtt', 'fmtc': 'irfmtc', 'fmtl': 'irfmtl'}
+
+
+def translation_tie(rep):
+    """Are the methods translated from pykdebugparser.py the ones format_*_ir_eq_model are proved for?  Switches the mirror
+    sections `*-ir` on: every section that drives fmtk / fmtq / fmtt / fmtc / fmtl is driven a second time through the
+    GENERATED methods under the interpreter of Model/PyIRFm and compared with the same answers of the real code."""
+    ans = core.drive(['fmircheck'])[0]
+    if ans == 'same':
+        rep.notes.append('translation tie: Gen/PyIRFm (from pykdebugparser.py) = Spec/PyIRFmExpected')
+    else:
+        rep.broken.append('theorem source_is_expected_ir: the IR that tools/gen_pyir_fm.py translates from the source text of the '
+                          'line builders of pykdebugparser.py is not the program of Spec/PyIRFmExpected that '
+                          'format_*_ir_eq_model are proved for (%s)' % ans[:600])
+    rep.mirror = dict(MIRROR)
+
+
 # ---------------------------------------------------------------- driver
 
 RULES = {
@@ -872,6 +899,7 @@ def product(streams_, color_opts=(None,)):
 
 def correspondence(rep, rng, tier):
     from .. import pipeline as _PL
+    translation_tie(rep)
     _PL.section_e2e(rep, rng, tier, n=(120 if tier == 'quick' else 4000))
     k = 1 if tier == 'quick' else 20
     run_section(rep, 'format-primitives', gen_primitives(rng, tier), prim_line, prim_impl, prim_oracle,
@@ -965,7 +993,11 @@ def replay(path):
     return 0
 
 
-LEVEL_TEXT = ('Lean theorems over the statement-by-statement model of the four line builders, for all 2^6 switch settings '
+LEVEL_TEXT = ('Translation tie: source_is_expected_ir (the methods translated from the source text on every run = Spec/PyIRFmExpected) + '
+              'format_timestamp / process / kevent / trace / callstack / log _ir_eq_model (the translated methods, interpreted, '
+              'ARE Model/Format for every setting and argument; kevent_ir_is_join, trace_ir_is_header_body read the column '
+              'theorems on the interpreted source). '
+              'Lean theorems over the statement-by-statement model of the four line builders, for all 2^6 switch settings '
               'and all inputs: kevent_is_join, trace_is_join, callstack_is_join, log_is_join, column_off (+ trace / '
               'callstack / log variants), kevent_column_removed, header_column_removed, process_column_lookup, '
               'log_colour_transparent; trace_colour_transparent_partial under an explicit assumption on the highlighter. '
@@ -977,10 +1009,13 @@ LEVEL_TEXT = ('Lean theorems over the statement-by-statement model of the four l
               'traces() on the tables at its yield; nothing added, reordered or dropped but the traces from the first rendering '
               'exception on), e2e_process_column / e2e_process_column_unfiltered (line i is the join of its columns and its '
               'process column is processSpec of declaredTables of the prefix ending with its trigger event), e2e_unreadable. '
-              'Model tied to the code by differential runs of formatted_kevents / formatted_traces / _format_callstack / '
-              '_format_log for all 64 settings, colour on and off, and of the Python format primitives.')
+              'Model also tied to the code by differential runs of formatted_kevents / formatted_traces / _format_callstack / '
+              '_format_log for all 64 settings, colour on and off, and of the Python format primitives; the same runs are '
+              'repeated through the GENERATED IR (sections *-ir).')
 LEVEL_NOTE = ('Partial: colour transparency of trace lines assumes the highlighter can be erased (pygments rewrites carriage '
               'returns and edge newlines: known finding K7); the wall-clock branch of _format_timestamp is outside the '
-              'model. Trusted: Lean kernel, '
-              'hand-written model of the builders and of Python format specs (diffed), pygments/termcolor as external.')
-TECHNIQUE = 'Lean 4 proof (builders = join of enabled columns, by cases on the six switches) + differential correspondence'
+              'model and outside the translation tie (opaque node). Trusted: Lean kernel, the translator tools/gen_pyir_fm.py and '
+              'the interpreter of Model/PyIRFm (diffed against CPython through the generated IR), the hand-written model of '
+              'Python format specs (diffed), pygments/termcolor as external.')
+TECHNIQUE = ('Lean 4 proof (source text of the builders -> IR by translation, IR interpreted = model; builders = join of enabled '
+             'columns, by cases on the six switches) + differential correspondence (hand model and generated IR)')
